@@ -2621,6 +2621,28 @@ def slice_C20(ctx):
             pairs.append((str(cid), str(cid + 1), "r{n,m} expansion, alternatives of different lengths", False))
             cid += 2
         laws["r{n,m} varlen"] += 1
+    # sixth stream (own generator state): r{n} for a group that holds a starred group of alternatives of
+    # different lengths, against n copies of r, on inputs where the match does not start at the first
+    # position tried (copies of the group's head character in front)
+    rng_c = random.Random(ctx.seed * 49979687 + 53)
+    for _ in range(ctx.n(300, 3000)):
+        h_, a_, b_, c_ = rng_c.sample("xabcy", 4)
+        inner = rng_c.choice(["(?:%s|%s%s)*" % (a_, b_, c_), "(?:%s%s|%s)*" % (a_, b_, a_), "(?:%s|%s%s)*?" % (a_, a_, b_), "(?:%s|%s)*" % (a_ + b_, c_)])
+        n0 = rng_c.choice([2, 2, 3])
+        tail = rng_c.choice(["y", "$", "z", h_ + "y"])
+        unit = h_ + inner
+        counted = "(?:%s){%d}%s" % (unit, n0, tail)
+        expanded = unit * n0 + tail
+        t_ = tail.replace("$", "")
+        for extra in (0, 1, 2):
+            for mid in ("", a_, b_ + c_, a_ + b_):
+                inp = h_ * extra + (h_ + mid) * n0 + t_
+                a = Case(cid, "xpath", "", counted, inp, "<$0>", "mra", tag="r{n} expansion, starred group inside")
+                b = Case(cid + 1, "xpath", "", expanded, inp, "<$0>", "mra", tag="r{n} expansion, starred group inside")
+                cases += [a, b]
+                pairs.append((str(cid), str(cid + 1), "r{n} expansion, starred group inside", False))
+                cid += 2
+        laws["r{n} starred inside"] += 1
     code, model, dis = run_slice(cases)
     spec = spec_match([c for c in cases])
     byid = {c.cid: c for c in cases}
